@@ -7,9 +7,10 @@
    internal fuel (the result is [Some]), and that e is the state after the call that returned
    false; it holds for every fuel above [length l].  [exhausted next e]: every further call
    returns false. *)
-From Coq Require Import List ZArith Sorted Permutation.
+From Coq Require Import List ZArith Bool Sorted Permutation.
 From Mamba Require Import Iter.Model Iter.Enum Iter.Lex Iter.PermUtil Iter.PermEnum
-  Iter.IntPartOrder Iter.IntPart Iter.Part Iter.Colex Iter.MultisetComb.
+  Iter.IntPartOrder Iter.IntPart Iter.Part Iter.PartBlocks Iter.Colex Iter.MultisetComb
+  Iter.HeapSafe Iter.TopoOrder Iter.TopoStep Iter.TopoEnum.
 Import ListNotations.
 Open Scope Z_scope.
 
@@ -118,4 +119,67 @@ Print Assumptions C15_multiset_combinations.
 Example C15_multiset_combinations_nonvacuous :
   option_map fst (drain mcomb_next mcomb_freq 6 (mcomb_init [2;0;1;2] 3))
   = Some [[2;0;1;0]; [2;0;0;1]; [1;0;1;1]; [1;0;0;2]; [0;0;1;2]].
+Proof. vm_compute. reflexivity. Qed.
+
+(* Partitions(n), n >= 1, through Value(): with lr the list of restricted growth strings of the
+   previous theorem, the values returned by Value() are [map rgs_blocks lr]; none is a panic
+   ([Some p]), every p is a set partition of {0..n-1} (blocks non-empty, duplicate-free, inside
+   the range, covering the range, pairwise disjoint, no block listed twice), and no partition
+   is returned twice.  (That every set partition is the image of a restricted growth string is
+   the classical bijection and is not proved here.) *)
+Theorem C15_partitions_value : forall n' : nat,
+  exists s0, parts_init (S n') = Some s0 /\
+  exists lr e,
+    (forall fuel, (length lr < fuel)%nat ->
+       drain parts_next parts_value fuel s0 = Some (map rgs_blocks lr, e)) /\
+    (forall r, In r lr <-> rgs_F (S n') r) /\ NoDup lr /\
+    (forall o, In o (map rgs_blocks lr) -> exists p, o = Some p /\ is_setpart (S n') p) /\
+    NoDup (map rgs_blocks lr) /\
+    exhausted parts_next e.
+Proof. exact parts_value_enumerates. Qed.
+Print Assumptions C15_partitions_value.
+
+Example C15_partitions_value_nonvacuous :
+  option_map (fun s => option_map fst (drain parts_next parts_value 6 s)) (parts_init 3)
+  = Some (Some [Some [[0;1;2]]; Some [[0;1];[2]]; Some [[0;2];[1]]; Some [[0];[1;2]]; Some [[0];[1];[2]]]).
+Proof. vm_compute. reflexivity. Qed.
+
+(* TopologicalSorts(n, less), every n >= 0 and every less that is a sub-relation of the natural
+   order on 0..n-1 (transitivity is not needed): exactly the permutations x of 0..n-1 in which u
+   stands before v whenever less u v, each once; [pos x v] is the index of v in x.  The order of
+   generation is the lexicographic order of the inversion tables ([topo_lt]). *)
+Theorem C15_topological_sorts : forall (n : nat) (less : Z -> Z -> bool),
+  (forall u v, (u < n)%nat -> (v < n)%nat -> less (Z.of_nat u) (Z.of_nat v) = true -> (u < v)%nat) ->
+  exists l e,
+    (forall fuel, (length l < fuel)%nat ->
+       drain (topo_next less) topo_value fuel (topo_init n) = Some (l, e)) /\
+    StronglySorted (topo_lt n) l /\ NoDup l /\
+    (forall x, In x l <->
+       Permutation x (iota n) /\
+       forall u v, (u < n)%nat -> (v < n)%nat -> less (Z.of_nat u) (Z.of_nat v) = true ->
+         (pos x (Z.of_nat u) < pos x (Z.of_nat v))%nat) /\
+    exhausted (topo_next less) e.
+Proof. exact topo_enumerates. Qed.
+Print Assumptions C15_topological_sorts.
+
+Example C15_topological_sorts_nonvacuous :
+  option_map fst (drain (topo_next (fun u v => (u =? 0) && (v =? 2))) topo_value 4 (topo_init 3))
+  = Some [[0;1;2]; [0;2;1]; [1;0;2]].
+Proof. vm_compute. reflexivity. Qed.
+
+(* Permutations(n) (Heap's algorithm), safety half only: from every state reachable from the
+   constructor by calls of Next, the next call does not panic; if it returns true the array is a
+   permutation of 0..n-1; if it returns false every later call returns false.
+   MISSING for the full property: that every permutation is produced, and only once. *)
+Theorem C15_permutations_heap_partial : forall n : nat,
+  forall s, reachable heap_next (heap_init n) s ->
+    exists s' b, heap_next s = Some (s', b) /\
+      (b = true -> Permutation (heap_value s') (iota n)) /\
+      (b = false -> exhausted heap_next s').
+Proof. exact heap_safe. Qed.
+Print Assumptions C15_permutations_heap_partial.
+
+Example C15_permutations_heap_partial_nonvacuous :
+  option_map fst (drain heap_next heap_value 7 (heap_init 3))
+  = Some [[0;1;2]; [1;0;2]; [2;0;1]; [0;2;1]; [1;2;0]; [2;1;0]].
 Proof. vm_compute. reflexivity. Qed.
